@@ -63,8 +63,54 @@ def impl_att(c):
     rov = ro.get_verify_cap() if ro is not None else None
     vv = v.get_verify_cap() if v is not None else None
     si = c.get_storage_index()
-    return "%s %s %s | %s | %s | %s | %s" % (b(c.is_readonly()), b(c.is_mutable()), "None" if si is None else hx(si),
-                                            cap_and_ts(ro), cap_and_ts(v), cap_and_ts(rov), cap_and_ts(vv))
+    return "%s %s %s | %s | %s | %s | %s | auth=%s%s%s" % (
+        b(c.is_readonly()), b(c.is_mutable()), "None" if si is None else hx(si),
+        cap_and_ts(ro), cap_and_ts(v), cap_and_ts(rov), cap_and_ts(vv), cap_authority(c), cap_authority(ro), cap_authority(v))
+
+
+def cap_authority(c):
+    """W/R/V by the secrets the object holds (write key / read key or literal data / neither); O = UnknownURI"""
+    if c is None:
+        return "-"
+    if type(c).__name__ == "UnknownURI":
+        return "O"
+    inner = c.get_filenode_cap() if hasattr(c, "get_filenode_cap") else c
+    if hasattr(inner, "writekey"):
+        return "W"
+    if hasattr(inner, "readkey") or hasattr(inner, "key") or hasattr(inner, "data"):
+        return "R"
+    return "V"
+
+
+def node_authority(node):
+    if type(node).__name__ == "UnknownNode":
+        return "W" if node.get_write_uri() else "O"
+    return cap_authority(node.get_cap() if hasattr(node, "get_cap") else node.get_verify_cap())
+
+
+def impl_slot(rc, rw, ro, deep):
+    """(driver line, implementation output) for the route set_uri -> pack ro slot -> reader; None if not comparable"""
+    from allmydata.unknown import strip_prefix_for_ro
+    from allmydata.interfaces import CapConstraintError
+    child = rc.mk().create_from_cap(rw, ro, deep_immutable=deep)
+    rk = "-"
+    if type(child).__name__ != "UnknownNode" and hasattr(child, "get_cap"):
+        cap = child.get_cap()
+        inner = cap.get_filenode_cap() if hasattr(cap, "get_filenode_cap") else cap
+        if hasattr(inner, "writekey"):
+            rk = "%s=%s" % (hx(inner.writekey), hx(inner.readkey))
+    line = "slot %d %s %s %s" % (deep, opt(rw), opt(ro), rk)
+    try:
+        child.raise_error()
+    except CapConstraintError as e:
+        return line, "REFUSED " + U.ERRS[type(e).__name__]
+    if type(child).__name__ == "CiphertextFileNode":
+        return line, "NOTPACKABLE"
+    stored = strip_prefix_for_ro(child.get_readonly_uri() or b"", deep)
+    if stored.endswith(b" "):
+        return None          # _unpack_contents rstrips spaces before parsing; not modelled
+    reader = rc.mk().create_from_cap(None, stored or None, deep_immutable=deep)
+    return line, "STORED %s -> %s auth=%s" % (hx(stored), show_node(reader), node_authority(reader))
 
 
 def secrets(c):
@@ -496,6 +542,10 @@ def run(ctx):
         for deep in (False, True):
             case = {"rw": opt(rw), "ro": opt(ro), "deep": deep}
             monitor_ro_slot(ctx, ro_ctx, rw, ro, deep, case)
+            sl = impl_slot(ro_ctx, rw, ro, deep)
+            if sl is not None:
+                lines.append(sl[0]); impl.append(sl[1]); cases.append(dict(case, op="slot"))
+                ctx.count("slot:" + sl[1].split()[0])
             n = UnknownNode(rw, ro, deep_immutable=deep)
             # monitor: unknown caps keep / strengthen their prefix
             if n.error is not None and (n.rw_uri is not None or n.ro_uri is not None):
